@@ -598,3 +598,64 @@ def path_summary(F, fn):
             return None
         out.add('%s => %s' % (' & '.join('%s=%s' % c for c in conds) or 'always', s))
     return sorted(out)
+
+
+# ---- I-CMP: the limb comparison over the finite domain of limb orderings ----------------------------------------------------
+def limb_compare(cx, rule, qual):
+    """u256_cmp touches its operands only through comparisons of corresponding limbs, so its behaviour is a function of the
+    81 possible orderings (a[i] <, =, > b[i] for i = 0..3).  The path summary (constant-trip loops unrolled by constant
+    propagation) is evaluated for each of them: exactly one return path must be consistent with the ordering and its value
+    must be the lexicographic comparison from the most significant limb down (1, 0, -1)."""
+    import itertools, re
+    fn = cx.fn(qual, rule)
+    if fn is None:
+        return
+    summ = path_summary(cx.F, fn)
+    inst = fn.short
+    if summ is None:
+        cx.lost(rule, inst, 'no path summary for %s (a loop whose trip count is not constant, or a value the dataflow does not compose)' % inst, fn.loc())
+        return
+    names = [fn.local_name(i) for i in range(1, fn.arg_count + 1)]
+    if len(names) != 2:
+        cx.lost(rule, inst, 'expected two operands', fn.loc())
+        return
+    a, b = names
+    paths = []
+    for line in summ:
+        cond_s, val = line.rsplit(' => ', 1)
+        conds = []
+        ok = True
+        if cond_s != 'always':
+            for c in cond_s.split(' & '):
+                m = re.match(r'^(Gt|Lt|Ge|Le|Eq|Ne)\(\$(\w+)\.(\d), \$(\w+)\.(\d)\)=(true|false)$', c)
+                if not m or m.group(3) != m.group(5) or {m.group(2), m.group(4)} != {a, b}:
+                    ok = False
+                    break
+                op, i, truth = m.group(1), int(m.group(3)), m.group(6) == 'true'
+                if m.group(2) == b:        # b.i OP a.i  ==  a.i SWAP(OP) b.i
+                    op = {'Gt': 'Lt', 'Lt': 'Gt', 'Ge': 'Le', 'Le': 'Ge', 'Eq': 'Eq', 'Ne': 'Ne'}[op]
+                conds.append((op, i, truth))
+        if not ok:
+            cx.lost(rule, inst, 'a decision of %s is not a comparison of corresponding limbs: %s' % (inst, cond_s[:120]), fn.loc())
+            return
+        try:
+            v = int(val)
+        except ValueError:
+            cx.lost(rule, inst, 'a returned value of %s is not a constant: %s' % (inst, val[:80]), fn.loc())
+            return
+        if v >= 1 << 31:
+            v -= 1 << 32
+        paths.append((conds, v))
+    TEST = {'Gt': lambda s: s > 0, 'Lt': lambda s: s < 0, 'Ge': lambda s: s >= 0, 'Le': lambda s: s <= 0, 'Eq': lambda s: s == 0, 'Ne': lambda s: s != 0}
+    bad = None
+    for signs in itertools.product((-1, 0, 1), repeat=4):          # signs[i] = sign(a[i] - b[i])
+        want = 0
+        for i in (3, 2, 1, 0):
+            if signs[i]:
+                want = signs[i]
+                break
+        hits = [v for conds, v in paths if all(TEST[op](signs[i]) == truth for op, i, truth in conds)]
+        if len(hits) != 1 or hits[0] != want:
+            bad = 'for limb orderings (a[i] ? b[i], i = 0..3) = %s the function returns %s, the comparison of the 256-bit values is %d' % (signs, hits, want)
+            break
+    cx.add(rule, inst, bad is None, '%s is the lexicographic comparison from limb 3 down on all 81 limb orderings (%d return paths)%s' % (inst, len(paths), '' if bad is None else ': ' + bad), fn.loc())
